@@ -27,6 +27,16 @@ CLAIMS = {
              "natively, bounded); debug_log's one-way override not specified.",
         technique="VC generation from the Python AST (pyvc) + z3/cvc5; option table read from the AST",
         design="3/C19"),
+    "C15": dict(
+        text="Narrow layer: workers share no state (effect analysis over everything reachable from the static method file_init), "
+             "workspace_init merges the results in file-list order after close/join and links only against the complete index "
+             "(structural obligations), type inheritance resolves the parent first whatever the link order (VCs, shared "
+             "contract), references are collected to a fixed point. Equality of every answer across worker counts, enumeration "
+             "orders, hash seeds and with the open-one-at-a-time path is decided only on a bounded schedule exploration.",
+        note="confluence of link resolution is proved for type inheritance only; other link kinds and the pooled-vs-open path "
+             "equality are bounded observations (7 schedules quick, 15 thorough, one generated workspace per seed).",
+        technique="effect/frame analysis (pyvc mode E) + structural obligations + shared VCs; schedule exploration as bounded stand-in",
+        design="3/C15"),
     "C16": dict(
         text="_send: the emitted frame starts with Content-Length equal to the UTF-8 byte length of the JSON text, "
              "one blank line, then the body (for every payload); _receive: for every grammatical frame (any number "
